@@ -531,6 +531,23 @@ func GoNamed(name string, f func()) {
 	s.newThread(name, f)
 }
 
+// GoInterrupt starts f on a new thread that does not begin before pred holds and is then
+// offered first at the next choice point, ahead of the running thread (see AwaitFirst). A
+// thread started with Go only reaches its first statement when the default schedule gets
+// round to it - with run-to-block defaults that can be long after the step it was meant
+// for; an interrupt is in position from the moment it is created.
+func GoInterrupt(name string, pred func() bool, f func()) {
+	if s == nil {
+		go func() {
+			Await(name, pred)
+			f()
+		}()
+		return
+	}
+	t := s.newThread(name, f)
+	t.op = &op{kind: opCond, label: "interrupt", enabled: pred, first: true}
+}
+
 // Perturb, when non-zero, makes pass-through scheduling points yield the
 // processor pseudo-randomly (used by the free-running -race pass).
 var Perturb uint32
